@@ -2,7 +2,7 @@ package engine
 
 import "fmt"
 
-var famNames = []string{"F-type", "F-name", "F-sub", "F-full", "F-iface", "F-chain", "F-tsub", "F-nsub", "F-assign", "F-ptr", "F-asub"}
+var famNames = []string{"F-type", "F-name", "F-sub", "F-full", "F-iface", "F-chain", "F-tsub", "F-nsub", "F-assign", "F-ptr", "F-asub", "F-unnamed"}
 var formNames = map[int64]string{0: "positional where the labels allow it, else struct", 1: "struct", 2: "*struct", 3: "built (BuildFunc)", 9: "symbolic form per function"}
 
 // world describes one resolver template shard.
@@ -25,7 +25,7 @@ func world(entry string, fam, nT, nV, conv, form, sv int64, mode ...int64) Shard
 		extra += ", all options attached as construction defaults"
 	}
 	if m&32 != 0 {
-		extra += ", option spelling of every value symbolic (NamedSubtype / Named / Typed / Typed after a nil / TypedSubtype)"
+		extra += ", option spelling of every value symbolic (NamedSubtype / Named / Typed / Typed after a nil / TypedSubtype, or all of them as ValueSet.Args())"
 	}
 	if m&64 != 0 {
 		extra += ", target built with default values under its own parameters' keys (Call arguments must win)"
@@ -56,10 +56,12 @@ func registerResolver() {
 	register(&PropSpec{
 		ID: "C01", Pkg: "argmapper",
 		Quick: []Shard{
+			world("HarnessC01", 11, 2, 1, 0, 1, 0), world("HarnessC01", 11, 1, 1, 11, 1, 100),
 			world("HarnessC01", 10, 1, 2, 11, 1, 0), world("HarnessC01", 10, 1, 1, 0, 1, 0),
 			world("HarnessC01", 1, 1, 2, 0, 0, 0), world("HarnessC01", 2, 1, 2, 0, 1, 0), world("HarnessC01", 3, 1, 1, 0, 9, 0), world("HarnessC01", 0, 1, 1, 11, 9, 0), world("HarnessC01", 1, 1, 1, 11, 1, 0), world("HarnessC01", 2, 1, 1, 11, 3, 1), world("HarnessC01", 6, 1, 1, 12, 1, 0, 4), world("HarnessC01", 5, 1, 1, 2111, 0, 0), world("HarnessC01", 100, 0, 0, 0, 1, 0), world("HarnessC01", 101, 0, 0, 0, 9, 0, 2), world("HarnessC01", 102, 0, 0, 0, 1, 0), world("HarnessC01", 103, 0, 0, 0, 1, 0), world("HarnessC01", 104, 0, 0, 0, 0, 0), world("HarnessC01", 106, 0, 0, 0, 1, 0), world("HarnessC01", 1, 1, 1, 11, 3, 0, 8), world("HarnessC01", 3, 1, 1, 0, 9, 0, 24), world("HarnessC01", 0, 1, 1, 11, 9, 0, 16), world("HarnessC01", 9, 1, 1, 11, 1, 0), world("HarnessC01", 108, 0, 0, 0, 1, 0), world("HarnessC01", 109, 0, 0, 0, 1, 0),
 		},
 		Thorough: []Shard{
+			world("HarnessC01", 11, 2, 1, 0, 1, 0), world("HarnessC01", 11, 1, 1, 11, 1, 100), world("HarnessC01", 11, 2, 0, 11, 1, 0), world("HarnessC01", 11, 2, 2, 11, 9, 0),
 			world("HarnessC01", 10, 1, 2, 11, 1, 0), world("HarnessC01", 10, 2, 2, 11, 9, 0), world("HarnessC01", 10, 1, 1, 1111, 1, 0),
 			world("HarnessC01", 1, 1, 2, 0, 0, 0), world("HarnessC01", 2, 1, 2, 0, 1, 0), world("HarnessC01", 3, 1, 1, 0, 9, 0), world("HarnessC01", 0, 1, 1, 11, 9, 0), world("HarnessC01", 1, 1, 1, 11, 1, 0), world("HarnessC01", 2, 1, 1, 11, 3, 1), world("HarnessC01", 6, 1, 1, 12, 1, 0, 4), world("HarnessC01", 5, 1, 1, 2111, 0, 0), world("HarnessC01", 100, 0, 0, 0, 1, 0), world("HarnessC01", 101, 0, 0, 0, 9, 0, 2), world("HarnessC01", 102, 0, 0, 0, 1, 0), world("HarnessC01", 103, 0, 0, 0, 1, 0), world("HarnessC01", 104, 0, 0, 0, 0, 0), world("HarnessC01", 106, 0, 0, 0, 1, 0), world("HarnessC01", 3, 1, 2, 0, 9, 0), world("HarnessC01", 3, 1, 1, 11, 3, 0), world("HarnessC01", 0, 1, 1, 1111, 1, 0), world("HarnessC01", 1, 2, 1, 11, 1, 0), world("HarnessC01", 0, 1, 2, 21, 1, 0), world("HarnessC01", 7, 1, 1, 11, 1, 0), world("HarnessC01", 6, 1, 2, 21, 1, 0, 4), world("HarnessC01", 5, 1, 2, 211111, 0, 0), world("HarnessC01", 5, 2, 1, 1111, 9, 0), world("HarnessC01", 100, 0, 0, 0, 9, 1), world("HarnessC01", 102, 0, 0, 0, 9, 0), world("HarnessC01", 103, 0, 0, 0, 9, 1), world("HarnessC01", 105, 0, 0, 0, 9, 0), world("HarnessC01", 1, 1, 1, 91, 1, 0), world("HarnessC01", 3, 1, 1, 91, 1, 0),
 		},
@@ -113,10 +115,12 @@ func registerResolver() {
 	register(&PropSpec{
 		ID: "C03", Pkg: "argmapper", SchedDependent: true,
 		Quick: []Shard{
+			world("HarnessC03", 11, 2, 1, 0, 1, 0), world("HarnessC03", 11, 1, 1, 11, 1, 100),
 			world("HarnessC03", 1, 1, 1, 0, 1, 100), world("HarnessC03", 3, 1, 1, 11, 1, 100), world("HarnessC03", 1, 2, 0, 11, 0, 0), world("HarnessC03", 2, 1, 1, 11, 1, 100), world("HarnessC03", 0, 1, 0, 11, 9, 0), world("HarnessC03", 3, 1, 0, 91, 1, 100), world("HarnessC03", 1, 1, 1, 91, 1, 101), world("HarnessC03", 103, 0, 0, 0, 1, 100), world("HarnessC03", 1, 1, 1, 91, 1, 100, 2), world("HarnessC03", 0, 1, 1, 91, 9, 100, 2),
 			world("HarnessC03", 2, 1, 1, 11, 1, 0, 32), world("HarnessC03", 1, 2, 0, 11, 1, 0, 96), world("HarnessC03", 3, 1, 0, 11, 1, 0, 96), world("HarnessC03", 0, 2, 1, 0, 1, 0, 32), world("HarnessC03", 3, 2, 0, 0, 1, 0, 96),
 		},
 		Thorough: []Shard{
+			world("HarnessC03", 11, 2, 1, 0, 1, 0), world("HarnessC03", 11, 1, 1, 11, 1, 100), world("HarnessC03", 11, 2, 0, 11, 1, 0), world("HarnessC03", 11, 2, 2, 11, 9, 0),
 			world("HarnessC03", 3, 1, 1, 11, 1, 0, 32), world("HarnessC03", 3, 2, 0, 11, 1, 0, 64), world("HarnessC03", 2, 1, 1, 11, 1, 0, 32), world("HarnessC03", 1, 2, 0, 11, 1, 0, 96), world("HarnessC03", 3, 1, 0, 11, 1, 0, 96), world("HarnessC03", 0, 2, 1, 0, 1, 0, 32), world("HarnessC03", 3, 2, 0, 0, 1, 0, 96),
 			world("HarnessC03", 1, 1, 1, 0, 1, 100), world("HarnessC03", 3, 1, 1, 11, 1, 100), world("HarnessC03", 1, 2, 0, 11, 0, 0), world("HarnessC03", 2, 1, 1, 11, 1, 100), world("HarnessC03", 0, 1, 0, 11, 9, 0), world("HarnessC03", 3, 1, 0, 91, 1, 100), world("HarnessC03", 1, 1, 1, 91, 1, 101), world("HarnessC03", 103, 0, 0, 0, 1, 100), world("HarnessC03", 1, 1, 2, 0, 1, 100), world("HarnessC03", 3, 1, 1, 11, 3, 101), world("HarnessC03", 1, 2, 0, 11, 0, 101), world("HarnessC03", 0, 1, 1, 11, 9, 0), world("HarnessC03", 3, 1, 0, 1111, 1, 0), world("HarnessC03", 3, 2, 1, 11, 1, 1), world("HarnessC03", 3, 1, 1, 91, 1, 101), world("HarnessC03", 2, 1, 1, 91, 1, 102), world("HarnessC03", 7, 1, 1, 1191, 1, 0), world("HarnessC03", 102, 0, 0, 0, 1, 100),
 		},
@@ -147,10 +151,10 @@ func registerResolver() {
 	})
 	register(&PropSpec{
 		ID: "C05", Pkg: "argmapper", SchedDependent: true,
-		Quick: []Shard{sh("HarnessC05Gen", "converters from a name-sensitive generator, 2 named values, insertion order", 0, 2, 0), sh("HarnessC05Gen", "generator, 3 named values, flip at Graph.Vertices", 0, 3, 103), sh("HarnessShapes", "statically declared structs: marker last / in the middle, on the only derivation path (Call and Redefine)", 0, 0),
+		Quick: []Shard{sh("HarnessC05Gen", "generator reacting to the outputs of explicit converters (chain), 2 named values", 0, 2, 0, 1), sh("HarnessC05Gen", "converters from a name-sensitive generator, 2 named values, insertion order", 0, 2, 0, 0), sh("HarnessC05Gen", "generator, 3 named values, flip at Graph.Vertices", 0, 3, 103, 0), sh("HarnessShapes", "statically declared structs: marker last / in the middle, on the only derivation path (Call and Redefine)", 0, 0),
 			world("HarnessC05", 0, 1, 1, 11, 1, 102), world("HarnessC05", 0, 1, 1, 1111, 1, 0), world("HarnessC05", 1, 1, 1, 1111, 1, 1), world("HarnessC05", 0, 1, 1, 1121, 1, 0), world("HarnessC05", 101, 0, 0, 0, 9, 0, 2), world("HarnessC05", 104, 0, 0, 0, 0, 100, 2), world("HarnessC05", 106, 0, 0, 0, 1, 0, 2), world("HarnessC05", 5, 1, 1, 2111, 0, 0, 2), world("HarnessC05", 0, 1, 1, 91, 9, 0, 2), world("HarnessC05", 0, 1, 1, 11, 9, 0, 16), world("HarnessC05", 108, 0, 0, 0, 1, 0), world("HarnessC05", 9, 1, 1, 11, 1, 0),
 		},
-		Thorough: []Shard{sh("HarnessC05Gen", "converters from a name-sensitive generator, 2 named values, insertion order", 0, 2, 0), sh("HarnessC05Gen", "generator, 3 named values, flip at Graph.Vertices", 0, 3, 103), sh("HarnessC05Gen", "generator, 3 named values, flip product at the path-selection sites", 0, 3, 100), sh("HarnessC05Gen", "generator, 2 named values, seeded orders 1", 0, 2, 1), sh("HarnessC05Gen", "generator, 3 named values, seeded orders 2", 0, 3, 2), sh("HarnessShapes", "statically declared structs: marker last / in the middle, on the only derivation path (Call and Redefine)", 0, 0),
+		Thorough: []Shard{sh("HarnessC05Gen", "generator reacting to the outputs of explicit converters (chain), 2 named values", 0, 2, 0, 1), sh("HarnessC05Gen", "generator chain, 3 named values, flip at Graph.Vertices", 0, 3, 103, 1), sh("HarnessC05Gen", "converters from a name-sensitive generator, 2 named values, insertion order", 0, 2, 0, 0), sh("HarnessC05Gen", "generator, 3 named values, flip at Graph.Vertices", 0, 3, 103, 0), sh("HarnessC05Gen", "generator, 3 named values, flip product at the path-selection sites", 0, 3, 100, 0), sh("HarnessC05Gen", "generator, 2 named values, seeded orders 1", 0, 2, 1, 0), sh("HarnessC05Gen", "generator, 3 named values, seeded orders 2", 0, 3, 2, 0), sh("HarnessShapes", "statically declared structs: marker last / in the middle, on the only derivation path (Call and Redefine)", 0, 0),
 			world("HarnessC05", 0, 1, 1, 11, 1, 102), world("HarnessC05", 0, 1, 1, 1111, 1, 0), world("HarnessC05", 1, 1, 1, 1111, 1, 1), world("HarnessC05", 0, 1, 1, 1121, 1, 0), world("HarnessC05", 101, 0, 0, 0, 9, 0, 2), world("HarnessC05", 104, 0, 0, 0, 0, 100, 2), world("HarnessC05", 106, 0, 0, 0, 1, 0, 2), world("HarnessC05", 5, 1, 1, 2111, 0, 0, 2), world("HarnessC05", 0, 1, 1, 91, 9, 0, 2), world("HarnessC05", 0, 1, 1, 1111, 1, 100), world("HarnessC05", 0, 1, 1, 111111, 1, 0), world("HarnessC05", 3, 1, 1, 11, 0, 0), world("HarnessC05", 3, 1, 0, 1111, 0, 0), world("HarnessC05", 0, 2, 1, 1111, 1, 2), world("HarnessC05", 4, 1, 1, 1111, 1, 0), world("HarnessC05", 5, 1, 2, 211111, 0, 0), world("HarnessC05", 5, 1, 1, 111111, 0, 0, 2), world("HarnessC05", 100, 0, 0, 0, 9, 0, 2), world("HarnessC05", 102, 0, 0, 0, 9, 0, 2), world("HarnessC05", 105, 0, 0, 0, 1, 100), world("HarnessC05", 105, 0, 0, 0, 9, 0),
 		},
 		Covers:   []string{"C05.gen-checked", "C05.shapes-checked", "C05.call-returned", "C05.derivable-world", "C05.converter-used", "C05.stability-checked"},
